@@ -174,7 +174,9 @@ def instant_family(res, tier, rnd):
             script += [P.DO("send", msg=P.B("exec", fast=True, cb=cb)), P.DO("sleep", us=rnd.choice([0, 0, 2000]))]
         script += [P.DO("sleep", us=80000), P.W("idle"), P.DO("send", msg=P.U(600)), P.DO("sleep", us=80000), P.W("idle"),
                    P.DO("send", msg=P.U(601)), P.W("idle"), P.DO("kill"), P.W("returned")]
-        scs.append(P.scenario(i, script, opts={"fps": 120, "alt": alt}, inp={"kind": "pipe"}, parallel_ok=True, watchdog_ms=5000))
+        # (a view of four lines of which one carries the version: the other three do not change across the command, yet
+        #  they must be painted again - the external program had the screen)
+        scs.append(P.scenario(i, script, opts={"fps": 120, "alt": alt}, inp={"kind": "pipe"}, parallel_ok=True, watchdog_ms=5000, view={"pad": 3, "at": 1}))
         metas.append({"alt": alt, "callback": cb, "execs": n})
     results, _ = P.run_scenarios("C17_instant", scs, timeout=900)
     bad = []
@@ -192,6 +194,11 @@ def instant_family(res, tier, rnd):
         ends = [e for e in ev if e["ev"] == "ExecRunEnd"]
         if u600 is not None and ends:
             seg = bytes(r["output"])[ends[-1]["outlen"]:u600["outlen"]]
+            missing = [t for t in (b"row 00 ", b"row 02 ", b"row 03 ") if t not in seg]
+            if (b"view %d" % u600["ver"]) in seg and missing:
+                bad.append((m, "after %d external command(s) (%s, %s) the view was not fully repainted: its unchanged lines %s were not painted again" %
+                            (m["execs"], "alt screen" if m["alt"] else "inline", "callback" if m["callback"] else "no callback", [x.decode() for x in missing])))
+                continue
             if (b"view %d" % u600["ver"]) not in seg:
                 import re as _re
                 bad.append((m, "after %d external command(s) (%s, %s) and no further message the current view (view %d) was not painted again; painted since the last command: %s" %
